@@ -88,7 +88,7 @@ type Schedule struct {
 	Key     []int  `json:"key"`
 	Dialler []int  `json:"dialler"` // spec connection -> dialling subscriber (as predicted by the generator)
 	Bad     []bool `json:"bad"`     // subscriber -> its request cannot be encoded (invalid raw variables)
-	Ping    bool   `json:"ping"`    // client pings on (every 300 ms) with a pong timeout (100 ms); a "Mute c" step makes the server stop answering
+	Ping    bool   `json:"ping"`    // client pings on (every 500 ms) with a pong timeout (150 ms); a "Mute c" step makes the server stop answering
 	Reach   []bool `json:"reach"`   // spec connection -> its dial reaches the server (false: dialled with an already cancelled ctx)
 	Steps   []Step `json:"steps"`
 	Slack   int    `json:"slack_ms"`
@@ -579,8 +579,8 @@ func (r *runner) step(st Step) {
 const (
 	// the interval must exceed the timeout: pingLoop refreshes lastPingSentAt on every tick, so with interval <= timeout
 	// pongOverdue() never sees "sent longer ago than the timeout" and a silent upstream is never detected
-	pingInterval = 300 * time.Millisecond
-	pingTimeout  = 100 * time.Millisecond
+	pingInterval = 500 * time.Millisecond
+	pingTimeout  = 150 * time.Millisecond
 )
 
 func variantOf(st Step) string {
